@@ -237,6 +237,10 @@ RANGE_AUDIT = {
     # the same audits by role (the function found structurally as the cost pre-pass / day loop, with its helpers)
     ("ROLE:prepass", "index", "some(next(var:v0)).transaction_idx"):
         "offsets[lot.transaction_idx]: offsets has transactions.len() entries and every lot index is an enumerate index of that slice",
+    # the same site when the lots are walked by an internal iteration (`.for_each(|lot| offsets[lot.transaction_idx] = …)`): the lot is
+    # the closure's parameter
+    ("ROLE:prepass", "index", "p1.transaction_idx"):
+        "offsets[lot.transaction_idx] (lot = the closure's element): offsets has transactions.len() entries and every lot index is an enumerate index of that slice",
 }
 
 
@@ -570,8 +574,11 @@ def _flag_infeasible_edges(main, start):
     out = set()
     defs = main.defs()
     for l, ds in defs.items():
-        tds = [d for d in ds if d[0] == "assign" and d[3]["rv"]["k"] == "tuple"]
+        # a tuple — or a small carrier struct (`PdfTarget { path, is_default }`): same constructor in every definition, operands by position
+        tds = [d for d in ds if d[0] == "assign" and (d[3]["rv"]["k"] == "tuple" or (d[3]["rv"]["k"] == "agg" and not d[3]["rv"].get("variant_idx")))]
         if len(tds) < 2 or len(tds) != len(ds):
+            continue
+        if len({(d[3]["rv"]["k"], d[3]["rv"].get("adt"), len(d[3]["rv"]["ops"])) for d in tds}) != 1:
             continue
         for fi in range(len(tds[0][3]["rv"]["ops"])):
             vals = {}
